@@ -76,7 +76,7 @@ func caseLess(a, b *caseT) bool {
 }
 
 func primaryKind(k string) bool {
-	return k == "drive-on" || k == "fetcher" || k == "single" || k == "valid" || k == "resigned" || k == "byzblock" || k == "framing" || k == "roundtrip" || k == "rehashed" || k == "second-claim" || k == "pol-sequence"
+	return k == "retained" || k == "drive-on" || k == "fetcher" || k == "single" || k == "valid" || k == "resigned" || k == "byzblock" || k == "framing" || k == "roundtrip" || k == "rehashed" || k == "second-claim" || k == "pol-sequence"
 }
 
 func finish(r *report.Run, us []*unit, results []*unitResult, deaths []deathRec, machinery []string, expired bool, tier string, target int, unitsDone int) {
@@ -143,6 +143,9 @@ func finish(r *report.Run, us []*unit, results []*unitResult, deaths []deathRec,
 				// lexicographically first) failing event sequence
 				gk = fmt.Sprintf("%s|%02x|%s|%s|%s|%s", c.Reactor, c.Ch, c.Msg, "-", "*sequence*", v.Oracle)
 			}
+			if c.Kind == "retained" {
+				gk = fmt.Sprintf("%s|%02x|%s|%s|%s|%s", c.Reactor, c.Ch, c.Msg, c.Field, "*retained*", v.Oracle)
+			}
 			if c.Kind == "drive-on" {
 				gk = fmt.Sprintf("%s|%02x|%s|%s|%s|%s", c.Reactor, c.Ch, c.Msg, c.Field, "*drive-on*", v.Oracle)
 			}
@@ -162,7 +165,7 @@ func finish(r *report.Run, us []*unit, results []*unitResult, deaths []deathRec,
 			g.Peers[c.Peer] = true
 			if caseLess(c, g.Case) {
 				g.Case, g.What = c, v.What
-				if c.Kind == "coupled" || c.Kind == "fetcher" || c.Kind == "drive-on" {
+				if c.Kind == "coupled" || c.Kind == "fetcher" || c.Kind == "drive-on" || c.Kind == "retained" {
 					g.Class = c.Class
 				}
 			}
@@ -413,6 +416,15 @@ func finish(r *report.Run, us []*unit, results []*unitResult, deaths []deathRec,
 	r.Set("fetcher_states_expanded_per_unit_sum", notes["fetcher-distinct-states"])
 	r.Set("fetcher_states_with_a_stale_origin_observed", notes["fetcher-stale-origin-states"])
 	r.Set("fetcher_sequences_with_a_late_request_call", notes["fetcher-sequences-with-a-late-request-call"])
+	r.Set("retained_state_sequences", notes["retained-checked"])
+	r.Set("retained_state_sequences_that_made_the_node_keep_something", notes["retained-grew"])
+	r.Set("retained_state_budgets", map[string]string{
+		"votes for untracked rounds of the current height (any signature)": "<= 2 catch-up rounds per peer, <= 2 more tracked rounds",
+		"VoteSetMaj23 for untracked rounds":                                "0",
+		"VoteSetMaj23 for tracked rounds":                                  "1 claim + 1 per-block tally per (round, type) per peer; a different second claim stops the peer",
+		"Proposal / BlockPart for unknown rounds":                          "0",
+		"HasVote / NewRoundStep jumps":                                     "0 on the node side (peer state only)",
+	})
 	r.Set("drive_on_cases", notes["drive-on-cases"])
 	r.Set("drive_on_rounds_entered", notes["drive-on-rounds"])
 	r.Set("drive_on_heights_committed", notes["drive-on-heights"])
@@ -480,6 +492,7 @@ func finish(r *report.Run, us []*unit, results []*unitResult, deaths []deathRec,
 		}
 		r.Require(notes["fetcher-sequences-with-a-late-request-call"] > 50, "fewer than 50 fetcher sequences released a delayed request call")
 		r.Require(notes["drive-on-cases"] > 500 && notes["drive-on-rounds"] >= 3*notes["drive-on-cases"] && notes["drive-on-heights"] > 20, "the drive-on hardly ran")
+		r.Require(notes["retained-checked"] > 500 && notes["retained-grew"] > 100, "the retained-state sequences hardly ran / never made the node keep anything")
 		r.Require(notes["fetcher-distinct-states"] > 500, "the fetcher search expanded fewer than 500 states")
 		r.Require(stages["roundtrip-ok"] >= 24, "fewer than 24 message types went through the encode/decode round trip")
 	}
